@@ -59,6 +59,7 @@ struct Seq {
 
 struct Runtime {
   unsigned long long now_us;
+  unsigned long millis_offset;   // added to millis()/micros() with natural wrap-around (roll-over experiments)
   long events;
   long max_events;
   Seq dr[64];
@@ -483,11 +484,11 @@ inline int analogRead(int pin) {
   return static_cast<int>(v);
 }
 inline unsigned long millis() {
-  unsigned long v = static_cast<unsigned long>(redu_rt::rt().now_us / 1000ULL);
+  unsigned long v = static_cast<unsigned long>(redu_rt::rt().now_us / 1000ULL) + redu_rt::rt().millis_offset;
   redu_rt::ev("millis %lu", v);
   return v;
 }
-inline unsigned long micros() { return static_cast<unsigned long>(redu_rt::rt().now_us); }
+inline unsigned long micros() { return static_cast<unsigned long>(redu_rt::rt().now_us) + redu_rt::rt().millis_offset * 1000UL; }
 inline void delay(unsigned long ms) {
   redu_rt::ev("delay %lu", ms);
   redu_rt::rt().now_us += static_cast<unsigned long long>(ms) * 1000ULL;
